@@ -118,7 +118,14 @@ void taskMain(void * arg)
         case O_STORE:
           // op.v != 0 selects the operator form of the same operation (operator= / operator T())
           if (sc == S_SHARED_VAR && s.flag) {if (op.v != 0) {*s.flag = (op.seq & 1) != 0;} else {s.flag->store((op.seq & 1) != 0);} break;}
-          if (sc == S_SHARED_VAR) {if (op.v != 0) {*s.var = Blob::make(op.seq);} else {s.var->store(Blob::make(op.seq));}} else {s.opt->store(Blob::make(op.seq));}
+          if (op.seq & 2) {
+            // a named object (lvalue argument) ...
+            const Blob named = Blob::make(op.seq);
+            if (sc == S_SHARED_VAR) {if (op.v != 0) {*s.var = named;} else {s.var->store(named);}} else {s.opt->store(named);}
+          } else {
+            // ... or a temporary (an rvalue overload, if there is one, binds here)
+            if (sc == S_SHARED_VAR) {if (op.v != 0) {*s.var = Blob::make(op.seq);} else {s.var->store(Blob::make(op.seq));}} else {s.opt->store(Blob::make(op.seq));}
+          }
           break;
         case O_LOAD: {
             if (s.flag) {bool b = op.v != 0 ? static_cast<bool>(*s.flag) : s.flag->load(); rec.outSeq = b ? 1 : 0; rec.flag = true; break;}
